@@ -3,7 +3,7 @@ import steps_C11
 
 ID = "C11"
 PROP = {
-    "modules": ["Gnmi.Props.C11"],
+    "modules": ["Gnmi.Props.C11", "Gnmi.Props.C11Prog"],
     "theorems": ["Gnmi.C11." + t for t in [
         # sequential, all histories
         "reachable_inv", "pending_nodup", "map_domain", "step_refines", "refines_spec", "next_complete",
@@ -15,7 +15,13 @@ PROP = {
         "cancel_wakes", "close_wakes", "insert_after_close_refused", "closed_stable",
         "delivery_exact", "insert_wakes", "seq_insert_is_schedule", "seq_next_is_schedule"]] + [
         "Gnmi.CoLTS.inv_init", "Gnmi.CoLTS.inv_step", "Gnmi.CoLTS.inv_reach",
-        "Gnmi.CoLTS.fire_sound", "Gnmi.CoLTS.fire_complete"],
+        "Gnmi.CoLTS.fire_sound", "Gnmi.CoLTS.fire_complete"] + ["Gnmi.C11Prog." + t for t in [
+        # progress of the consumer in run form (Props/C11Prog.lean)
+        "run_iff_fireAll", "ready_arm_persists", "ready_arm_persists_run", "select_step_progress",
+        "no_lost_wakeup_run", "wake_or_post_run", "consumer_steps_bounded", "wakeup_outcome",
+        "first_consumer_step_progress", "wakeup_leads_to", "ready_leads_to", "closed_leads_to_return",
+        "select_not_always_enabled", "stale_rounds_unbounded", "fair_consumer_moves", "fair_call_returns",
+        "fair_wakeup"]],
     "components": [
         {"c": "co", "quick": {"n": 10000, "exhaustive": True}, "thorough": {"n": 40000, "exhaustive": True, "seeds": 4}},
     ],
@@ -46,7 +52,12 @@ PROP = {
                       "conserved, a closed queue refuses inserts and reports closed only when drained. Concurrent: an LTS whose "
                       "transitions are the atomic sections of coalesce.go (any number of producers/closers, one consumer, "
                       "cancellation at any time) with an inductive invariant giving order/conservation, no lost wake-up, "
-                      "drain-before-closed and wake-up by cancel/close for every interleaving. The models are tied to "
+                      "drain-before-closed and wake-up by cancel/close for every interleaving. Progress in run form "
+                      "(Props/C11Prog.lean): a ready select case stays ready and the consumer stays at the select under every step "
+                      "of the other threads, its next step leaves the select, one Next call takes at most stepsBound consumer "
+                      "steps (3 when an item is pending) whatever the others do, and on every infinite run weakly fair for the "
+                      "consumer and the producers' token post a pending item is delivered (fair_wakeup) and a woken call returns "
+                      "(fair_call_returns). The models are tied to "
                       "coalesce/coalesce.go by a differential correspondence (exhaustive small scope + seeded random sequences, "
                       "including replay of LTS schedules on the real code: Next in two phases, parking the real consumer "
                       "goroutine exactly between q.next() and the select, and Insert in its three atomic sections) and by "
